@@ -66,7 +66,7 @@ def equivalent(utype, a, b):
 ACCESSORS = ["ham_new", "ham_assign", "faxis", "mol_new", "mol_set_energy", "mol_width", "mode_new", "mode_set_energy",
              "agg_coupling", "agg_coupling_matrix", "cf_reorg", "sd_reorg", "length", "ham_rwa", "mol_adiabatic", "submode", "ham_inplace",
              "mol_ham", "mol_vib_ham", "ham_diag", "ham_undiag", "dfun_spline", "mol_diabatic", "abs_interp", "cd_interp",
-             "ham_cutoff_recover", "cf_sum_reorg"]
+             "ham_cutoff_recover", "cf_sum_reorg", "dfun_spline0"]
 LIBCALLS = ["agg_build", "agg_build_env", "agg_build_raises", "agg_rebuild", "get_Hamiltonian", "relaxation_tensor", "rate_matrix",
             "set_rwa", "time_to_frequency_axis", "frequency_to_time_axis", "thermal_state", "molecule_hamiltonian",
             "cf_add", "sd_from_cf", "ft_cf", "abs_calculate", "propagate", "diagonalize", "convert",
@@ -543,7 +543,7 @@ class Runner:
             self.ctx.ev(i, "set", name, lu)
             self.ctx.cov("set", name, lu)
             return
-        if name in ("faxis", "dfun_spline", "abs_interp", "cd_interp") and u == "nm":
+        if name in ("faxis", "dfun_spline", "dfun_spline0", "abs_interp", "cd_interp") and u == "nm":
             self.ctx.ev(i, "set", name, "noop-nm")
             return
         if name == "cf_sum_reorg" and self.eu_depth() == 0:
@@ -631,6 +631,11 @@ class Runner:
                 store = E
             elif name == "faxis":
                 obj = qr.FrequencyAxis(v, 5, v / 10.0)
+                store = e
+            elif name == "dfun_spline0":
+                # the same on an axis that starts exactly at zero (zero is zero in every unit)
+                fa = qr.FrequencyAxis(0.0, 24, v / 40.0)
+                obj = qr.DFunction(fa, numpy.cos(numpy.arange(24) / 4.0))
                 store = e
             elif name == "dfun_spline":
                 # a function of frequency; its interpolated value at a physical point must not depend on the units
@@ -800,11 +805,12 @@ class Runner:
             elif name == "mol_diabatic":
                 got = numpy.array([obj.get_diabatic_coupling((0, 1))[0][0], obj.get_diabatic_coupling((1, 2))[0][0]])
                 exp = numpy.array([float(from_internal(u, e))] * 2)
-            elif name == "dfun_spline":
+            elif name in ("dfun_spline", "dfun_spline0"):
                 import scipy.interpolate
-                xs = e + (e / 40.0) * numpy.arange(24)
-                ref = float(scipy.interpolate.UnivariateSpline(xs, numpy.cos(numpy.arange(24) / 4.0), s=0)(e * (1.0 + 7.3 / 40.0)))
-                xu = float(from_internal(u, e * (1.0 + 7.3 / 40.0)))
+                off = e if name == "dfun_spline" else 0.0
+                xs = off + (e / 40.0) * numpy.arange(24)
+                ref = float(scipy.interpolate.UnivariateSpline(xs, numpy.cos(numpy.arange(24) / 4.0), s=0)(off + e * 7.3 / 40.0))
+                xu = float(from_internal(u, off + e * 7.3 / 40.0))
                 if u == "nm":
                     # a linear axis in frequency is not linear (nor increasing) in wavelength: not interpolated there
                     got = exp = numpy.zeros(0)
